@@ -118,7 +118,7 @@ def main():
                    "baseline_off_cmd": "cd /repo && cargo test --workspace --no-fail-fast --offline", "source_commits": ["54f6f80"], "add_only": True},
          "engines": [{"name": "lean-model", "path": "lean/TrucModel", "serves_properties": sorted(CLAIMS), "kind_free_text": "Lean 4 model, theorems, line-protocol driver"},
                      {"name": "harness", "path": "harness", "serves_properties": sorted(CLAIMS), "kind_free_text": "Rust harness driving the real code; independent oracles for failing-input search"}],
-         "checks": [], "not_applicable": [], "notes": "see DESIGN.md; known-findings.jsonl lists fixed defects"}
+         "checks": [], "not_applicable": [], "notes": "see DESIGN.md; known-findings.txt lists fixed defects"}
     for i in ids:
         if i in CLAIMS:
             text, ref, note, tech = CLAIMS[i]
